@@ -144,8 +144,10 @@ def shard(ctx: Ctx) -> None:
     # the same malformed key configured again and again - three attempts of one client, then a second client of the process
     from aioesphomeapi.core import BadNameAPIError  # noqa: PLC0415
 
+    # (whitespace-only strings are configured keys too - they decode to zero bytes - not "no key": an empty string alone means no encryption)
     for klabel, key in (("16-bytes", base64.b64encode(PSK[:16]).decode()), ("31-bytes", base64.b64encode(PSK[:31]).decode()),
-                        ("33-bytes", base64.b64encode(PSK + b"x").decode()), ("not-base64", "A" * 41)):
+                        ("33-bytes", base64.b64encode(PSK + b"x").decode()), ("not-base64", "A" * 41),
+                        ("one-space", " "), ("newline", "\n"), ("mixed-whitespace", " \t\r\n"), ("equals-signs", "===="), ("31-bytes+newline", base64.b64encode(PSK[:31]).decode() + "\n")):
         idx += 1
         if not ctx.mine(idx):
             continue
@@ -165,7 +167,7 @@ def shard(ctx: Ctx) -> None:
                     break
                 wrote = sum(len(c.raw_writes) for c in dev.conns)
                 if wrote:
-                    res.violation("C04/S/bad-key-wrote", f"attempt {attempt + 1}: {wrote} client writes reached the device although the configured key is invalid", case)
+                    res.violation("C04/S/bad-key-wrote" if True else "", f"attempt {attempt + 1}: {wrote} client writes reached the device although the configured key is invalid", case)
                     break
     # a device that completes the Noise handshake (it has the key) but is not the expected one: the name arrives in the ServerHello (current
     # firmware), or - ServerHello without a name, firmware before 2022.2 - only in the API hello; either way BadNameAPIError and nothing after it
